@@ -24,3 +24,32 @@ theorem toNat_ushr12 (x : BitVec 64) : (x >>> 12).toNat = x.toNat / 4096 := by
   simp [BitVec.toNat_ushiftRight, Nat.shiftRight_eq_div_pow]
 
 end Firefly.Bits
+
+namespace Firefly.Bits
+
+theorem lowmask_getLsbD (k i : Nat) (hi : i < 64) :
+    (BitVec.ofNat 64 (2^k - 1)).getLsbD i = decide (i < k) := by
+  rw [BitVec.getLsbD_ofNat, Nat.testBit_two_pow_sub_one]; simp [hi]
+
+/-- `x &^ (2^k - 1)` keeps the bits from `k` upwards -/
+theorem and_not_lowmask (x : BitVec 64) (k : Nat) :
+    x &&& ~~~(BitVec.ofNat 64 (2^k - 1)) = (x >>> k) <<< k := by
+  apply BitVec.eq_of_getLsbD_eq
+  intro i hi
+  simp only [BitVec.getLsbD_and, BitVec.getLsbD_not, BitVec.getLsbD_shiftLeft,
+    BitVec.getLsbD_ushiftRight, lowmask_getLsbD k i hi, hi, decide_true, Bool.true_and]
+  by_cases h : i < k
+  · simp [h]
+  · simp [h]
+    congr 1; omega
+
+theorem toNat_and_not_lowmask (x : BitVec 64) (k : Nat) :
+    (x &&& ~~~(BitVec.ofNat 64 (2^k - 1))).toNat = x.toNat / 2^k * 2^k := by
+  rw [and_not_lowmask]
+  simp only [BitVec.toNat_shiftLeft, BitVec.toNat_ushiftRight, Nat.shiftLeft_eq,
+    Nat.shiftRight_eq_div_pow]
+  have := x.isLt
+  have h2 : x.toNat / 2^k * 2^k ≤ x.toNat := Nat.div_mul_le_self _ _
+  apply Nat.mod_eq_of_lt; omega
+
+end Firefly.Bits
